@@ -316,8 +316,27 @@ def iter_arrays_rules(ctx, RA):
     if f is None:
         raise AnalysisError('RaggedArray.iter_arrays vanished')
     loops = [n for n in own_nodes(f.node) if isinstance(n, ast.For)]
+
+    def _as_param(a):
+        """A range argument is the parameter itself, or a local that is the parameter with its None-default filled in
+        (`stop = <default> if endindex is None else endindex`): -> (parameter name, default expression or None)."""
+        if isinstance(a, ast.Name) and a.id in f.params:
+            return a.id, None
+        if isinstance(a, ast.Name):
+            ds = [v for v, st in defs_of(f.node, a.id)]
+            if len(ds) == 1 and isinstance(ds[0], ast.IfExp) and isinstance(ds[0].test, ast.Compare) and \
+                    len(ds[0].test.ops) == 1 and isinstance(ds[0].test.ops[0], (ast.Is, ast.IsNot)) and \
+                    isinstance(ds[0].test.left, ast.Name) and ds[0].test.left.id in f.params and \
+                    isinstance(ds[0].test.comparators[0], ast.Constant) and ds[0].test.comparators[0].value is None:
+                pn = ds[0].test.left.id
+                given, dflt = (ds[0].orelse, ds[0].body) if isinstance(ds[0].test.ops[0], ast.Is) else (ds[0].body, ds[0].orelse)
+                if isinstance(given, ast.Name) and given.id == pn:
+                    return pn, dflt
+        return norm(a), None
+    rargs = [_as_param(a) for a in loops[0].iter.args] if loops and isinstance(loops[0].iter, ast.Call) else []
+    local_defaults = {pn: d for pn, d in rargs if d is not None}
     ok = bool(loops) and isinstance(loops[0].iter, ast.Call) and dotted(loops[0].iter.func) == 'range' and \
-        [norm(a) for a in loops[0].iter.args] == ['startindex', 'endindex', 'stepsize']
+        [pn for pn, _ in rargs] == ['startindex', 'endindex', 'stepsize']
     ctx.decide(ok, 'R-FLOW', 'D1', f, loops[0] if loops else None, 'range-verbatim',
                'iter_arrays iterates range(startindex, endindex, stepsize) with its parameters verbatim', detail='range arguments changed')
     # the value bound to endindex when it is None (if statement or conditional expression, either polarity)
@@ -335,6 +354,8 @@ def iter_arrays_rules(ctx, RA):
                 break
         if norm(e) in ('self.narrays', 'len(self)', 'self.__len__()'):
             ok = True
+    if not ok and 'endindex' in local_defaults and norm(local_defaults['endindex']) in ('self.narrays', 'len(self)', 'self.__len__()'):
+        ok = True
     ctx.decide(ok, 'R-TABLE', 'D1', f, None, 'endindex-default', 'endindex defaults to the number of subarrays', detail='default changed')
     ys = [n for n in own_nodes(f.node) if isinstance(n, ast.Yield)]
     i = norm(loops[0].target) if loops else 'i'
